@@ -186,4 +186,34 @@ func init() {
 			{Pkg: "jpegls/lossless", Fn: "VerifC03BitChannel", Label: "jpegls-bit-writer", Desc: "JPEG-LS bit writer: a byte after FF has its top bit clear", Bounds: [2]string{"K <= 3", "K <= 4"}, Params: [2]map[string]int64{P("maxK", 3, "widths", 4), P("maxK", 4, "widths", 6)}},
 			{Pkg: "jpeg2000/mqc", Fn: "VerifC20MQ", Label: "mq-byteout", Desc: "MQ encoder output: a byte after FF is at most 8F, the segment does not end in FF (all sequences of k decisions)", Bounds: [2]string{"k = 6", "k = 9"}, Params: [2]map[string]int64{P("k", 6, "symstates", 0), P("k", 9, "symstates", 0)}, Enumerative: true},
 		}})
+
+	j2kEnum := "EBCOT/MQ control flow depends on every coefficient bit: the end-to-end harness is small-scope enumeration executed by the engine (each path is one image), not solver generalisation"
+	reg(Check{Property: "C04",
+		Assumptions: []string{j2kEnum, "composition on images larger than the stated ones, precinct sizes, custom MCT, ROI and quality-layer byte splitting on real code-blocks are NOT covered"},
+		Harnesses: []Harness{
+			{Pkg: "jpeg2000", Fn: "VerifC04Samples", Desc: "sample layer: convertPixelData + DC shift (+RCT) -> inverse RCT + inverse DC shift + GetPixelData is the identity on bytes for every precision 1..16, unsigned and two's-complement signed, 1..4 components; all sample bits symbolic",
+				Bounds: [2]string{"2 pixels", "same"}},
+			{Pkg: "jpeg2000", Fn: "VerifC04EndToEnd", Desc: "whole reversible single-tile pipeline Encode -> codestream -> Decode -> GetPixelData on tiny images, symbolic pixels, levels 0..1, progression orders",
+				Bounds: [2]string{"1x1, 2x1, 1x2 at P=2, progression 0..1", "1x1..2x2 and 1x1x3 at P in {2,3}, all 5 progression orders"}, Params: [2]map[string]int64{P("ngeom", 3, "nP", 1, "nprog", 2), P("ngeom", 5, "nP", 2, "nprog", 5)}, Enumerative: true, BudgetS: [2]int{300, 3000}},
+			{Pkg: "jpeg2000/t2", Fn: "VerifC04PacketCodes", Desc: "packet-header pass-count code for every count 1..164 through the real bit writer/reader with following bits", Bounds: [2]string{"all 164 counts", "same"}, Enumerative: true},
+			{Pkg: "jpeg2000/t2", Fn: "VerifC16Bio", Label: "packet-header-bit-io", Desc: "packet-header bit writer/reader with FF bit-stuffing: written values come back", Bounds: [2]string{"K <= 2 writes of widths {1,3,8}", "K <= 3"}, Params: [2]map[string]int64{P("maxK", 2), P("maxK", 3)}, Enumerative: true},
+			{Pkg: "jpeg2000/wavelet", Fn: "VerifC20DWT2D", Label: "dwt53-2d", Desc: "multi-level 5/3 DWT with origin parity is exactly invertible (all values)", Bounds: [2]string{"w,h <= 8, levels 0..3", "w,h <= 16, levels 0..5"}, Params: [2]map[string]int64{P("maxS", 8, "maxLevels", 3), P("maxS", 16, "maxLevels", 5)}},
+			{Pkg: "jpeg2000/colorspace", Fn: "VerifC20RCT", Label: "rct", Desc: "RCT exactly invertible (all values)", Bounds: [2]string{"|v| <= 2^28", "same"}},
+		}})
+	reg(Check{Property: "C05",
+		Assumptions: []string{"Rate, TargetRatio and ladder values come from representative concrete sets (floats derived from symbolic integers cannot be branched on); NumLevels, NumLayers, progression order are symbolic", "NOT covered: the PCRD layer allocation itself and the 'final layer receives all remaining passes' bookkeeping inside the encoder; byte-exact round trips under rate targets"},
+		Harnesses: []Harness{
+			{Pkg: "jpeg2000/lossless", Fn: "VerifC05Params", Desc: "Validate + configureLosslessEncodeParams for every admitted parameter object: reversible path kept, levels 0..6, >= 1 layer, and a rate target only together with the final-lossless-layer switch and >= 2 layers (explicit ladders end with rate 0)",
+				Bounds: [2]string{"9 rates x 4 ratios x 4 ladders (one symbolic) x 4 bit-depth pairs x symbolic levels/layers/progression", "same"}},
+		}})
+	reg(Check{Property: "C19",
+		Assumptions: []string{j2kEnum, "NOT covered: tiles with decomposition levels beyond 1, multiple layers / global rate allocation over tiles, images beyond the stated sizes"},
+		Harnesses: []Harness{
+			{Pkg: "jpeg2000", Fn: "VerifC19Grid", Desc: "tile grid arithmetic: encoder tileBounds == decoder GetTileBounds for a symbolic tile index; tiles non-empty and inside the image; a symbolic pixel lies in tile t iff t is the tile its coordinates select (partition); tile sizes from {1,2,3,8,31,...}, 1..3 tiles per axis, last tile full / 1 / 2 short / 1 sample wide",
+				Bounds: [2]string{"5 tile sizes per axis", "10 tile sizes per axis"}, Params: [2]map[string]int64{P("nts", 5), P("nts", 10)}},
+			{Pkg: "jpeg2000", Fn: "VerifC19Placement", Desc: "encoder tile extraction (transformTile, no levels) followed by decoder AssembleTile is the identity for every image up to 4x4 (thorough 6x6), every tile size, 1 and 3 components, symbolic contents",
+				Bounds: [2]string{"images <= 4x4", "images <= 6x6"}, Params: [2]map[string]int64{P("maxS", 4), P("maxS", 6)}},
+			{Pkg: "jpeg2000", Fn: "VerifC04EndToEnd", Label: "tiled-end-to-end", Desc: "multi-tile Encode -> Decode on tiny images with symbolic pixels: every tile size smaller than the image (partial tiles, odd origins), levels 0..1",
+				Bounds: [2]string{"2x1, 1x2, 2x2 at P=2", "+ 3x2, 3x1 at P=2"}, Params: [2]map[string]int64{P("geom0", 1, "ngeom", 4, "tiles", 1), P("geom0", 1, "ngeom", 7, "tiles", 1)}, Enumerative: true, BudgetS: [2]int{400, 3000}},
+		}})
 }
